@@ -87,11 +87,65 @@ def run_replica(args):
             while not stop.is_set():
                 sync_once()
 
+        # a second device syncs another collection (an address book that nobody writes to) at the same time, with a
+        # different property list: every report must speak about its own collection and carry what it asked for
+        col2 = "/user/contacts/rep2/"
+        w.mkcol(col2, "addressbook")
+        cards = ["k%d.vcf" % i for i in range(12)]
+        for nm in cards:
+            w.put(col2, nm, gen.vcard(rng, "uid-" + nm, w.new_token(), rich=False))
+        mixups = []
+
+        def other_syncer():
+            while not stop.is_set():
+                resp = FE.raw_http(w.fe.addr, "REPORT", w.url(col2), [("Depth", "1"), X.XML_CT], X.sync_collection(None, props=("{DAV:}getetag", "{DAV:}getcontentlength")), timeout=20)
+                if resp.status != 207:
+                    continue
+                try:
+                    ms, newtok, problems = monitors.parse_report_members(w, col2, resp.body)
+                except X.MalformedXML:
+                    mixups.append("ill-formed")
+                    continue
+                counts["other_syncs"] = counts.get("other_syncs", 0) + 1
+                for pr in problems:
+                    mixups.append(pr)
+                names = {n for n in ms if n}
+                if names != set(cards):
+                    mixups.append("members %r instead of the %d cards" % (sorted(names ^ set(cards))[:4], len(cards)))
+                for n, r_ in ms.items():
+                    if n and (r_.prop_text(X.P_ETAG) is None or r_.prop_text("{DAV:}getcontentlength") is None):
+                        mixups.append("member %r without the requested properties" % n)
+                        break
+
+        def syncer_len():
+            # the calendar's syncer also asks for getcontentlength now and then (a property that reads the file)
+            while not stop.is_set():
+                resp = FE.raw_http(w.fe.addr, "REPORT", w.url(col), [("Depth", "1"), X.XML_CT], X.sync_collection(None, props=("{DAV:}getetag", "{DAV:}getcontentlength")), timeout=20)
+                if resp.status != 207:
+                    continue
+                try:
+                    ms, newtok, problems = monitors.parse_report_members(w, col, resp.body)
+                except X.MalformedXML:
+                    mixups.append("ill-formed")
+                    continue
+                for pr in problems:
+                    mixups.append(pr)
+                if {n for n in ms if n} - set(names):
+                    mixups.append("calendar report lists %r" % sorted({n for n in ms if n} - set(names))[:4])
+
         tw, ts = threading.Thread(target=writer), threading.Thread(target=syncer)
+        extra_threads = [threading.Thread(target=other_syncer), threading.Thread(target=syncer_len)]
         tw.start(); ts.start()
+        for t in extra_threads:
+            t.start()
         time.sleep(args["seconds"])
         stop.set()
         tw.join(); ts.join()
+        for t in extra_threads:
+            t.join()
+        res.count("replica_other_collection_syncs", counts.get("other_syncs", 0))
+        for m_ in sorted(set(mixups))[:10]:
+            res.violation(f"aio/{args['backend']}/concurrent-sync/report-speaks-about-another-request", f"two devices syncing two collections at the same time: {m_}", {"config": dict(args)})
         # quiescent: one more incremental sync from the last token the client was given
         ok = sync_once()
         actual = {}
@@ -130,7 +184,8 @@ def check(tier, seed, t0):
     guards = [("sync reports checked", c.get("sync_reports", 0), 1500 * k), ("reports with non-empty change set", c.get("sync_nonempty", 0), 200 * k),
               ("reports with removals", c.get("sync_with_removals", 0), 100 * k), ("foreign-token probes", c.get("foreign_probes", 0), 100 * k),
               ("earlier-token reports", c.get("sync_reports:earlier-token", 0), 500 * k), ("restarts", c.get("restarts", 0), 3),
-              ("syncs concurrent with writes (replica runs)", c.get("replica_syncs_concurrent_with_writes", 0), 300 * (1 if tier == "quick" else 6)), ("writes during replica runs", c.get("replica_writes", 0), 100)]
+              ("syncs concurrent with writes (replica runs)", c.get("replica_syncs_concurrent_with_writes", 0), 300 * (1 if tier == "quick" else 6)), ("writes during replica runs", c.get("replica_writes", 0), 100),
+              ("syncs of a second collection concurrent with the replica's", c.get("replica_other_collection_syncs", 0), 100 * (1 if tier == "quick" else 6))]
     return common.finish(PROP, tier, seed, "exploration", merged, failures, RULE, t0, guards=guards,
                          assumptions=["a token equal by value to one this collection issued is not foreign", "requests carry no DAV:limit"])
 
